@@ -9,8 +9,8 @@ import sys
 
 VERIF = "/verif"
 WT = os.environ.get("SEED_WT", "/tmp/seedrepo")
-EXTRA = {"C13": ["C25"], "C35": ["C36"], "C02": ["C38", "C01"], "C21": ["C22", "C19", "C04"], "C14": ["C16"], "C20": ["C19"], "C25": ["C19"],
-         "C11": ["C22"], "C06": ["C17"], "C19": ["C20"], "C27": ["C42"], "C38": ["C05"]}
+EXTRA = {"C13": ["C25"], "C35": ["C36"], "C02": ["C38", "C01"], "C21": ["C22", "C19", "C04"], "C14": ["C16"], "C20": ["C19", "C23"], "C25": ["C19"],
+         "C11": ["C22"], "C10": ["C01"], "C28": ["C27"], "C31": ["C27"], "C06": ["C17"], "C19": ["C20"], "C27": ["C42"], "C38": ["C05"]}
 
 
 def sh(cmd, **kw):
